@@ -62,7 +62,7 @@ type c05cCase struct {
 }
 
 // c05cRun: returns the number of secret-store calls the activation made and whether C got A's announcement.
-func c05cRun(t *testing.T, w *vWorld, id int, injectAt int64) (calls int64, sentToC bool, sentToB bool, sentToD bool) {
+func c05cRun(t *testing.T, w *vWorld, id int, injectAt int64, corrupt bool) (calls int64, sentToC bool, sentToB bool, sentToD bool) {
 	g := vDetGroup(w.seed, fmt.Sprintf("c05c-%d", id))
 	mk := func(acct string) (*vDevice, *GroupContext) {
 		d := w.newDevice(acct, fmt.Sprintf("w%d", id))
@@ -118,6 +118,17 @@ func c05cRun(t *testing.T, w *vWorld, id int, injectAt int64) (calls int64, sent
 	// after the activation has returned (also when it made fewer secret-store calls than injectAt this time: the
 	// number of calls varies by one with the timing of the event loop)
 	once.Do(inject)
+	if corrupt {
+		// an announcement addressed to A whose ciphertext is garbage (properly signed by B's device): A's handler
+		// refuses it, and must go on handling what comes next
+		_, err := MetadataStoreSendSecret(w.ctx, gcB.MetadataStore(), g, gcB.ownMemberDevice, gcA.MemberPubKey(), []byte("not a sealed chain key"))
+		vmust(err)
+		before := logHashes(gcA.MetadataStore())
+		w.deliver(gcA.MetadataStore(), logHashes(gcB.MetadataStore()))
+		if len(logHashes(gcA.MetadataStore())) == len(before) {
+			panic("HARNESS: the corrupt announcement did not reach A's replica")
+		}
+	}
 	// sentinel: D's device entry arrives now (certainly after the subscription exists); once A has answered it, A's
 	// event loop has handled everything that was emitted before it
 	w.deliver(gcA.MetadataStore(), logHashes(gcD.MetadataStore()))
@@ -158,7 +169,7 @@ func TestVerifC05c(t *testing.T) {
 	w := newVWorld(t, vrep.Seed())
 	defer w.close()
 	// dry run: how many secret-store calls does the activation make?
-	calls, _, _, _ := c05cRun(t, w, 0, -1)
+	calls, _, _, _ := c05cRun(t, w, 0, -1, false)
 	rep.Set("secret_store_calls_during_activation", calls)
 	id := 0
 	points := []int64{0, -1}
@@ -167,7 +178,7 @@ func TestVerifC05c(t *testing.T) {
 	}
 	for _, k := range points {
 		id++
-		_, toC, toB, toD := c05cRun(t, w, id, k)
+		_, toC, toB, toD := c05cRun(t, w, id, k, false)
 		where := "during"
 		if k == 0 {
 			where = "before"
@@ -185,6 +196,18 @@ func TestVerifC05c(t *testing.T) {
 		}
 		if !toB {
 			rep.Violation("C05/existing-member-gets-no-chain-key", fmt.Sprintf("existing member B gets no announcement (arrival point %d)", k), c05cCase{k})
+		}
+	}
+	// a refused announcement between two joins: the live handler survives it
+	for _, k := range []int64{0, -1} {
+		id++
+		_, toC, toB, toD := c05cRun(t, w, id, k, true)
+		rep.Eval(fmt.Sprintf("activation-window/refused-announcement-before-next-join/later-member-answered=%v", toD))
+		rep.AddTransitions(1)
+		if !toD {
+			rep.Violation("C05/member-joining-after-refused-announcement-gets-no-chain-key", fmt.Sprintf("A handles an announcement addressed to it whose ciphertext is garbage (refused), then member D's device entry arrives: A publishes no chain-key announcement for D within 60s (C's arrival point %d)", k), c05cCase{k})
+		} else if !toC || !toB {
+			rep.Violation("C05/member-gets-no-chain-key", fmt.Sprintf("with a refused announcement in the log: announced to C=%v, to B=%v", toC, toB), c05cCase{k})
 		}
 	}
 	rep.AddStates(int64(len(points)))
